@@ -48,7 +48,7 @@ def harness_exe():
     global _exe
     with _exe_lock:
         if _exe is None:
-            d, objs, cc, flags = vlib.build_lib("asan", units=("mir.c", "mir-gen.c"), extra_flags="-fsanitize-recover=address")
+            d, objs, cc, flags = vlib.build_lib("asan", units=("mir.c", "mir-gen.c"))
             tmp = os.path.join(d, "c14_data.%d" % os.getpid())
             vlib.cc_link(cc, flags, [os.path.join(vlib.HARNESS, "c14_data.c")], objs, tmp)
             _exe = tmp
@@ -157,7 +157,7 @@ def replay_all(ck, cases, engine, tag):
 TIERS = {
     # (cfg, nparts, engines for the sequences with label references besides the interpreter)
     "quick": [("MIRData_mc.cfg", 1, (1,))],
-    "thorough": [("MIRData_mc.cfg", 1, (1, 2, 3)), ("MIRData_t2.cfg", 1, (1, 2, 3)), ("MIRData_t.cfg", 12, (1,))],
+    "thorough": [("MIRData_mc.cfg", 1, (1, 2, 3)), ("MIRData_t2.cfg", 1, (1, 2, 3)), ("MIRData_t.cfg", 6, ())],
 }
 
 
